@@ -75,6 +75,8 @@ func selectCaseAppends(p *an.Prog, fn *ssa.Function) (send, recv []ssa.Instructi
 
 func notifierRules(c *Ctx) {
 	P := c.P
+	c.delegates("(*Notifier).Publish", "(*Notifier).PublishContext", "recv", "nil", "p1", "p2")
+	c.delegates("(*Notifier).Subscribe", "(*Notifier).SubscribeContext", "recv", "nil", "p1", "p2")
 	// SubscribeCancel: the watcher that unsubscribes on cancellation is started only after the subscription was made.
 	// (Started earlier, a duplicate Subscribe - which panics and, via the deferred cancel, fires the watcher - would
 	// remove the ORIGINAL subscription: "duplicate Subscribe panics without changing the registry".)
